@@ -48,6 +48,10 @@ Definition LI (p : hpc) : Prop :=
   | G_Iter node b prev iter => ptr iter <> 0
   | G_Cas node b prev iter next => ptr iter <> 0 /\ le_next (ptr iter) next
   | D_Xchg node v => le_next node v
+  | L_Assert node nx => le_next node nx
+  | R_Size old new onext | R_Cas old new onext _ => le_next old onext /\ rh C new = rh C old
+  | RG_Iter _ _ _ _ iter => ptr iter <> 0
+  | RG_Cas _ _ _ _ iter next => ptr iter <> 0 /\ le_next (ptr iter) next
   | _ => True
   end.
 
@@ -58,7 +62,8 @@ Record Inv (s : st) : Prop := {
   I_sorted : sorted s;
   I_li : forall t, LI (PC s t);
   I_buf : forall t, tbuf _ _ (TH s t) = [];
-  I_ops : forall t, Forall op_ok (TODO s t)
+  I_ops : forall t, Forall op_ok (TODO s t);
+  I_fn : forall t, le_next (found (tpc _ _ (TH s t))) (fnext (tpc _ _ (TH s t)))      (* the iterator left by a lookup: node and a next word read from it *)
 }.
 
 Notation tup := (tupd hloc (hprog C)).
@@ -81,15 +86,16 @@ Lemma Inv_upd (s : st) t m' (p' : hst) :
   Inv s ->
   m' HSize = sz0 ->
   (forall x, ptr (m' (HNext x)) <> 0 -> rh C x <= rh C (ptr (m' (HNext x)))) ->
-  LI (hcur p') -> Forall op_ok (htodo p') ->
+  LI (hcur p') -> Forall op_ok (htodo p') -> le_next (found p') (fnext p') ->
   Inv (mkst m' (tup (sthr _ _ s) t (mkts p'))).
 Proof.
-  intros [A B Cc D E] Hsz Hso Hli Hops. constructor.
+  intros [A B Cc D E F] Hsz Hso Hli Hops Hfn. constructor.
   - exact Hsz.
   - exact Hso.
   - intros u. unfold PC, TH; cbn. destruct (Nat.eq_dec u t) as [->|Hne]; [rewrite tupd_same; exact Hli|rewrite tupd_other by exact Hne; apply Cc].
   - intros u. unfold TH; cbn. destruct (Nat.eq_dec u t) as [->|Hne]; [rewrite tupd_same; reflexivity|rewrite tupd_other by exact Hne; apply D].
   - intros u. unfold TODO, TH; cbn. destruct (Nat.eq_dec u t) as [->|Hne]; [rewrite tupd_same; exact Hops|rewrite tupd_other by exact Hne; apply E].
+  - intros u. unfold TH; cbn. destruct (Nat.eq_dec u t) as [->|Hne]; [rewrite tupd_same; exact Hfn|rewrite tupd_other by exact Hne; apply F].
 Qed.
 
 (* effect of an action on memory when the store buffer is empty, and the value it returns *)
@@ -133,36 +139,61 @@ Proof. unfold le_next. rewrite ptr_clr. tauto. Qed.
 Lemma drain_ins (m : mem hloc) n v l : (forall k, l <> HIns k) -> drain hloc hloc_eqb m [(HIns n, v)] l = m l.
 Proof. intros Hl. cbn [drain]. apply (upd_other hloc hloc_eqb hloc_eqb_spec). intros E. apply (Hl n). symmetry. exact E. Qed.
 
-Lemma sorted_post (s : st) p r :
-  (forall x, ptr (smem _ _ s (HNext x)) <> 0 -> rh C x <= rh C (ptr (smem _ _ s (HNext x)))) ->
-  LI (hcur (hnext C p r)) ->
-  forall x, ptr (drain hloc hloc_eqb (smem _ _ s) (hpost C p r) (HNext x)) <> 0 ->
-            rh C x <= rh C (ptr (drain hloc hloc_eqb (smem _ _ s) (hpost C p r) (HNext x))).
+Lemma le_next_same a a' w : rh C a' = rh C a -> le_next a w -> le_next a' w.
+Proof. unfold le_next. intros E H Hn. rewrite E. apply H. exact Hn. Qed.
+
+(* the plain / ghost writes folded into a step: nothing, a ghost mark, or the initialisation of the forward pointer of a node the thread is about to link *)
+Lemma hpost_cases (p : hst) r : LI (hcur (hnext C p r)) ->
+  hpost C p r = [] \/ (exists n, hpost C p r = [(HIns n, 1)]) \/ (exists n v, hpost C p r = [(HNext n, v)] /\ le_next n v).
 Proof.
-  intros Hs Hli x. unfold hpost.
-  destruct (hcur p) eqn:Ep;
-    try (destruct (hcur (hnext C p r)) eqn:E; cbn [drain]; try apply Hs;
-         cbn in Hli; destruct Hli as (_ & _ & Hle);
-         match goal with |- context [upd _ _ _ (HNext ?nd) _ _] =>
-           destruct (N.eq_dec nd x) as [->|Hne];
-           [rewrite (upd_same hloc hloc_eqb hloc_eqb_spec); apply le_next_clr; exact Hle
-           |rewrite (upd_other hloc hloc_eqb hloc_eqb_spec) by congruence; apply Hs] end).
-  (* A_Cas: only the ghost mark may be written *)
-  destruct (r =? iter); [rewrite drain_ins by discriminate|cbn [drain]]; apply Hs.
+  intros Hli. unfold hpost.
+  assert (Hgen : (match hcur (hnext C p r) with
+                  | A_Cas node _ _ _ iter => [(HNext node, clr iter)] | R_Cas _ new onext _ => [(HNext new, onext)] | _ => [] end = [] \/
+                 (exists n, match hcur (hnext C p r) with
+                  | A_Cas node _ _ _ iter => [(HNext node, clr iter)] | R_Cas _ new onext _ => [(HNext new, onext)] | _ => [] end = [(HIns n, 1)]) \/
+                 (exists n v, match hcur (hnext C p r) with
+                  | A_Cas node _ _ _ iter => [(HNext node, clr iter)] | R_Cas _ new onext _ => [(HNext new, onext)] | _ => [] end = [(HNext n, v)] /\ le_next n v))).
+  { destruct (hcur (hnext C p r)) eqn:E; try (left; reflexivity); right; right.
+    - cbn in Hli. destruct Hli as (_ & _ & Hle). exists node, (clr iter). split; [reflexivity|apply le_next_clr; exact Hle].
+    - cbn in Hli. destruct Hli as (Hle & Hrh). exists new, onext. split; [reflexivity|apply (le_next_same old new onext Hrh Hle)]. }
+  destruct (hcur p) eqn:Ep; try exact Hgen.
+  - (* A_Cas *) destruct (r =? iter); [right; left; exists node; reflexivity|left; reflexivity].
+  - (* R_Cas *) destruct (r =? onext) eqn:Eq; [right; left; exists new; reflexivity|].
+    destruct (is_removed r) eqn:Er; [left; reflexivity|]. right; right. exists new, r. split; [reflexivity|].
+    unfold hnext in Hli. rewrite Ep, Eq in Hli. cbn [hcur] in Hli. unfold repl_at in Hli. rewrite Er in Hli. cbn in Hli.
+    destruct Hli as (Hle & Hrh). apply (le_next_same old new r Hrh Hle).
 Qed.
 
-Lemma size_post (s : st) p r : drain hloc hloc_eqb (smem _ _ s) (hpost C p r) HSize = smem _ _ s HSize.
+Lemma sorted_post (m : mem hloc) p r :
+  (forall x, ptr (m (HNext x)) <> 0 -> rh C x <= rh C (ptr (m (HNext x)))) ->
+  LI (hcur (hnext C p r)) ->
+  forall x, ptr (drain hloc hloc_eqb m (hpost C p r) (HNext x)) <> 0 ->
+            rh C x <= rh C (ptr (drain hloc hloc_eqb m (hpost C p r) (HNext x))).
 Proof.
-  unfold hpost. destruct (hcur p); try (destruct (hcur (hnext C p r)); cbn [drain]; reflexivity).
-  destruct (r =? iter); reflexivity.
+  intros Hs Hli x. destruct (hpost_cases p r Hli) as [E|[[n E]|(n & v & E & Hle)]]; rewrite E.
+  - cbn [drain]. apply Hs.
+  - rewrite drain_ins by discriminate. apply Hs.
+  - cbn [drain]. destruct (N.eq_dec n x) as [->|Hne];
+      [rewrite (upd_same hloc hloc_eqb hloc_eqb_spec); exact Hle|rewrite (upd_other hloc hloc_eqb hloc_eqb_spec) by congruence; apply Hs].
+Qed.
+
+Lemma size_post (m : mem hloc) p r : drain hloc hloc_eqb m (hpost C p r) HSize = m HSize.
+Proof.
+  assert (H : forall l : list (hloc * N), (forall a v, In (a, v) l -> a <> HSize) -> drain hloc hloc_eqb m l HSize = m HSize).
+  { intros l. generalize m. induction l as [|[a v] l IH]; intros m' Hl; cbn [drain]; [reflexivity|].
+    rewrite IH by (intros a' v' Hin; apply (Hl a' v'); right; exact Hin). apply (upd_other hloc hloc_eqb hloc_eqb_spec). apply (Hl a v). left; reflexivity. }
+  apply H. intros a v. unfold hpost.
+  destruct (hcur p); try destruct (hcur (hnext C p r));
+    repeat match goal with |- context [if ?c then _ else _] => destruct c end; cbn [In]; intros Hin;
+    repeat match type of Hin with _ \/ _ => destruct Hin as [Hin|Hin] end; try contradiction; inversion Hin; discriminate.
 Qed.
 
 (* steps that do not write memory themselves *)
 Lemma Inv_nowrite (s : st) t (p : hst) r : Inv s ->
-  LI (hcur (hnext C p r)) -> Forall op_ok (htodo (hnext C p r)) ->
+  LI (hcur (hnext C p r)) -> Forall op_ok (htodo (hnext C p r)) -> le_next (found (hnext C p r)) (fnext (hnext C p r)) ->
   Inv (mkst (drain hloc hloc_eqb (smem _ _ s) (hpost C p r)) (tup (sthr _ _ s) t (mkts (hnext C p r)))).
 Proof.
-  intros HI Hli Hops. apply Inv_upd; try assumption.
+  intros HI Hli Hops Hfn. apply Inv_upd; try assumption.
   - rewrite size_post. apply (I_size s HI).
   - apply sorted_post; [apply (I_sorted s HI)|exact Hli].
 Qed.
@@ -188,6 +219,11 @@ Proof.
   unfold gc_at. destruct (is_end r) eqn:Ee; [exact I|]. destruct (rh C node <? rh C (ptr r)); [exact I|]. cbn. apply is_end_ptr_f. exact Ee.
 Qed.
 
+Lemma LI_rgc_at new b old prev r : LI (rgc_at C new b old prev r).
+Proof.
+  unfold rgc_at. destruct (is_end r) eqn:Ee; [exact I|]. destruct (rh C new <? rh C (ptr r)); [exact I|]. cbn. apply is_end_ptr_f. exact Ee.
+Qed.
+
 Lemma LI_lookup_at node rhh k : LI (lookup_at C node rhh k).
 Proof. unfold lookup_at. destruct (node =? 0); [exact I|]. destruct (rhh <? rh C node); exact I. Qed.
 
@@ -195,6 +231,15 @@ Lemma todo_same (p : hst) r : hcur p <> H_Idle -> htodo (hnext C p r) = htodo p.
 Proof.
   intros Hne. unfold hnext. destruct (hcur p); try contradiction; cbn [htodo];
     repeat match goal with |- context [if ?c then _ else _] => destruct c end; reflexivity.
+Qed.
+
+(* the iterator (found, fnext) changes only when a lookup returns a node, with the word it read from that node *)
+Lemma fn_next (p : hst) r : le_next (found p) (fnext p) -> LI (hcur p) -> le_next (found (hnext C p r)) (fnext (hnext C p r)).
+Proof.
+  intros Hfn Hli. unfold hnext. destruct (hcur p) eqn:Ep; cbn [Lfht.found Lfht.fnext];
+    repeat match goal with |- context [match ?c with _ => _ end] => destruct c end; cbn [Lfht.found Lfht.fnext]; try exact Hfn.
+  all: try (intros Hz; exfalso; apply Hz; reflexivity).
+  all: try (cbn in Hli; exact Hli).
 Qed.
 
 Lemma sorted_cas (s : st) prev iter newv :
@@ -215,25 +260,30 @@ Proof.
   pose proof (I_sorted s HI) as Hso. pose proof (I_size s HI) as Hsz. unfold M in Hsz.
   set (p := tpc _ _ (TH s t)) in *.
   assert (Htodo : forall r, hcur p <> H_Idle -> Forall op_ok (htodo (hnext C p r))) by (intros r Hne; rewrite todo_same by exact Hne; exact Hops).
+  assert (Hfn : forall r, le_next (found (hnext C p r)) (fnext (hnext C p r))) by (intros r; apply fn_next; [apply (I_fn s HI t)|exact Hli]).
   unfold hact. destruct (hcur p) eqn:Epc; cbn [eff fst snd].
   - (* Idle *)
-    destruct (htodo p) as [|[node hash u|hh rhh k|] rest] eqn:Etd; [exact HI| | |];
-      apply Inv_nowrite; try exact HI; unfold hnext; rewrite Epc, Etd; cbn [hcur htodo LI];
+    destruct (htodo p) as [|[node hash u|hh rhh k| |new] rest] eqn:Etd; [exact HI| | | |];
+      (apply Inv_nowrite; [exact HI| | |apply Hfn]); unfold hnext; rewrite Epc, Etd; cbn [hcur htodo LI];
       try exact I; try (inversion Hops; assumption).
-  - (* L_Size *) apply Inv_nowrite; [exact HI| |apply Htodo; discriminate]. unfold hnext; rewrite Epc; cbn. exact I.
-  - apply Inv_nowrite; [exact HI| |apply Htodo; discriminate]. unfold hnext; rewrite Epc; cbn [hcur]. apply LI_lookup_at.
-  - apply Inv_nowrite; [exact HI| |apply Htodo; discriminate]. unfold hnext; rewrite Epc.
-    destruct (_ && _); cbn [hcur]; [exact I|apply LI_lookup_at].
-  - apply Inv_nowrite; [exact HI| |apply Htodo; discriminate]. unfold hnext; rewrite Epc; cbn. exact I.
-  - apply Inv_nowrite; [exact HI| |apply Htodo; discriminate]. unfold hnext; rewrite Epc; cbn. exact I.
+    (* replace: the checks before any memory access *)
+    unfold repl_start. pose proof (I_fn s HI t) as Hf. fold p in Hf.
+    destruct (found p =? 0); [exact I|]. destruct (N.eqb_spec (rh C (found p)) (rh C new)) as [Erh|_]; cbn [negb]; [|exact I].
+    destruct (key C (found p) =? key C new); cbn [negb]; [|exact I]. cbn [LI]. split; [exact Hf|symmetry; exact Erh].
+  - (* L_Size *) apply Inv_nowrite; [exact HI| |apply Htodo; discriminate|apply Hfn]. unfold hnext; rewrite Epc; cbn. exact I.
+  - apply Inv_nowrite; [exact HI| |apply Htodo; discriminate|apply Hfn]. unfold hnext; rewrite Epc; cbn [hcur]. apply LI_lookup_at.
+  - apply Inv_nowrite; [exact HI| |apply Htodo; discriminate|apply Hfn]. unfold hnext; rewrite Epc.
+    destruct (_ && _); cbn [hcur]; [exact (Hso node)|apply LI_lookup_at].
+  - apply Inv_nowrite; [exact HI| |apply Htodo; discriminate|apply Hfn]. unfold hnext; rewrite Epc; cbn. exact I.
+  - (* L_Ret *) apply Inv_nowrite; [exact HI| |apply Htodo; discriminate|apply Hfn]. unfold hnext; rewrite Epc. destruct (node =? 0); cbn; exact I.
   - (* A_Size *)
-    apply Inv_nowrite; [exact HI| |apply Htodo; discriminate]. unfold hnext; rewrite Epc; cbn [hcur LI].
+    apply Inv_nowrite; [exact HI| |apply Htodo; discriminate|apply Hfn]. unfold hnext; rewrite Epc; cbn [hcur LI].
     cbn in Hli. rewrite Hli, Hsz. apply Hbk.
   - (* A_Start *)
-    apply Inv_nowrite; [exact HI| |apply Htodo; discriminate]. unfold hnext; rewrite Epc; cbn [hcur]. cbn in Hli.
+    apply Inv_nowrite; [exact HI| |apply Htodo; discriminate|apply Hfn]. unfold hnext; rewrite Epc; cbn [hcur]. cbn in Hli.
     apply LI_add_at; [exact Hli|exact Hli].
   - (* A_Iter *)
-    apply Inv_nowrite; [exact HI| |apply Htodo; discriminate]. unfold hnext; rewrite Epc. cbn in Hli. destruct Hli as (L1 & L2 & L3 & L4).
+    apply Inv_nowrite; [exact HI| |apply Htodo; discriminate|apply Hfn]. unfold hnext; rewrite Epc. cbn in Hli. destruct Hli as (L1 & L2 & L3 & L4).
     set (r := smem hloc (hprog C) s (HNext (ptr iter))).
     destruct (is_removed r).
     + cbn. split; [exact L1|]. split; [exact L3|]. exact (Hso (ptr iter)).
@@ -241,9 +291,9 @@ Proof.
       * apply LI_dup_at; try assumption. apply andb_true_iff in Eu as [_ Eq]. apply N.eqb_eq in Eq. intros _. lia.
       * apply LI_add_at; assumption.
   - (* A_Dup *)
-    apply Inv_nowrite; [exact HI| |apply Htodo; discriminate]. unfold hnext; rewrite Epc. cbn in Hli. destruct Hli as (L1 & L2 & L3).
+    apply Inv_nowrite; [exact HI| |apply Htodo; discriminate|apply Hfn]. unfold hnext; rewrite Epc. cbn in Hli. destruct Hli as (L1 & L2 & L3).
     destruct (_ && _); cbn [hcur]; [exact I|apply LI_dup_at; assumption].
-  - apply Inv_nowrite; [exact HI| |apply Htodo; discriminate]. unfold hnext; rewrite Epc; cbn. exact I.
+  - apply Inv_nowrite; [exact HI| |apply Htodo; discriminate|apply Hfn]. unfold hnext; rewrite Epc; cbn. exact I.
   - (* A_Cas *)
     cbn in Hli. destruct Hli as (L1 & L2 & L3).
     apply Inv_upd; try exact HI.
@@ -256,6 +306,7 @@ Proof.
       destruct (smem hloc (hprog C) s (HNext prev) =? iter); [rewrite drain_ins by discriminate|cbn [drain]]; exact Hc.
     + unfold hnext; rewrite Epc. destruct (_ =? iter); cbn; [exact I|exact L1].
     + apply Htodo; discriminate.
+    + apply Hfn.
   - (* A_Gc *)
     cbn in Hli. destruct Hli as (L1 & L2 & L3).
     assert (Hpost : hpost C p (smem hloc (hprog C) s (HNext prev)) = []) by (unfold hpost, hnext; rewrite Epc; reflexivity).
@@ -266,9 +317,10 @@ Proof.
       destruct (is_bucket iter); rewrite ?ptr_clr_b, ?ptr_clr; intros Hn; specialize (L3 Hn); lia.
     + unfold hnext; rewrite Epc; cbn. exact L1.
     + apply Htodo; discriminate.
-  - apply Inv_nowrite; [exact HI| |apply Htodo; discriminate]. unfold hnext; rewrite Epc; cbn. exact I.
-  - (* D_Size *) apply Inv_nowrite; [exact HI| |apply Htodo; discriminate]. unfold hnext; rewrite Epc. destruct (node =? 0); cbn; exact I.
-  - apply Inv_nowrite; [exact HI| |apply Htodo; discriminate]. unfold hnext; rewrite Epc. destruct (is_removed _); cbn; exact I.
+    + apply Hfn.
+  - apply Inv_nowrite; [exact HI| |apply Htodo; discriminate|apply Hfn]. unfold hnext; rewrite Epc; cbn. exact I.
+  - (* D_Size *) apply Inv_nowrite; [exact HI| |apply Htodo; discriminate|apply Hfn]. unfold hnext; rewrite Epc. destruct (node =? 0); cbn; exact I.
+  - apply Inv_nowrite; [exact HI| |apply Htodo; discriminate|apply Hfn]. unfold hnext; rewrite Epc. destruct (is_removed _); cbn; exact I.
   - (* D_Or *)
     assert (Hpost : hpost C p 0 = []) by (unfold hpost, hnext; rewrite Epc; reflexivity).
     rewrite Hpost. cbn [drain]. apply Inv_upd; try exact HI.
@@ -278,9 +330,10 @@ Proof.
       * rewrite (upd_other hloc hloc_eqb hloc_eqb_spec) by congruence. apply Hso.
     + unfold hnext; rewrite Epc; cbn. exact I.
     + apply Htodo; discriminate.
-  - (* G_Start *) apply Inv_nowrite; [exact HI| |apply Htodo; discriminate]. unfold hnext; rewrite Epc; cbn [hcur]. apply LI_gc_at.
+    + apply Hfn.
+  - (* G_Start *) apply Inv_nowrite; [exact HI| |apply Htodo; discriminate|apply Hfn]. unfold hnext; rewrite Epc; cbn [hcur]. apply LI_gc_at.
   - (* G_Iter *)
-    apply Inv_nowrite; [exact HI| |apply Htodo; discriminate]. unfold hnext; rewrite Epc. cbn in Hli.
+    apply Inv_nowrite; [exact HI| |apply Htodo; discriminate|apply Hfn]. unfold hnext; rewrite Epc. cbn in Hli.
     destruct (is_removed _); cbn [hcur]; [cbn; split; [exact Hli|exact (Hso (ptr iter))]|apply LI_gc_at].
   - (* G_Cas *)
     cbn in Hli. destruct Hli as (L2 & L3).
@@ -292,8 +345,9 @@ Proof.
       destruct (is_bucket iter); rewrite ?ptr_clr_b, ?ptr_clr; intros Hn; specialize (L3 Hn); lia.
     + unfold hnext; rewrite Epc; cbn. exact I.
     + apply Htodo; discriminate.
-  - apply Inv_nowrite; [exact HI| |apply Htodo; discriminate]. unfold hnext; rewrite Epc; cbn. exact I.
-  - (* D_Load2 *) apply Inv_nowrite; [exact HI| |apply Htodo; discriminate]. unfold hnext; rewrite Epc; cbn. exact (Hso node).
+    + apply Hfn.
+  - apply Inv_nowrite; [exact HI| |apply Htodo; discriminate|apply Hfn]. unfold hnext; rewrite Epc; cbn. exact I.
+  - (* D_Load2 *) apply Inv_nowrite; [exact HI| |apply Htodo; discriminate|apply Hfn]. unfold hnext; rewrite Epc; cbn. exact (Hso node).
   - (* D_Xchg *)
     assert (Hpost : hpost C p (smem hloc (hprog C) s (HNext node)) = []) by (unfold hpost, hnext; rewrite Epc; reflexivity).
     rewrite Hpost. cbn [drain]. cbn in Hli. apply Inv_upd; try exact HI.
@@ -303,7 +357,38 @@ Proof.
       * rewrite (upd_other hloc hloc_eqb hloc_eqb_spec) by congruence. apply Hso.
     + unfold hnext; rewrite Epc; cbn. exact I.
     + apply Htodo; discriminate.
-  - apply Inv_nowrite; [exact HI| |apply Htodo; discriminate]. unfold hnext; rewrite Epc; cbn. exact I.
+    + apply Hfn.
+  - apply Inv_nowrite; [exact HI| |apply Htodo; discriminate|apply Hfn]. unfold hnext; rewrite Epc; cbn. exact I.
+  - (* R_Size *)
+    apply Inv_nowrite; [exact HI| |apply Htodo; discriminate|apply Hfn]. unfold hnext; rewrite Epc; cbn [hcur]. unfold repl_at.
+    destruct (is_removed onext); cbn; [exact I|exact Hli].
+  - (* R_Cas *)
+    cbn in Hli. destruct Hli as (L1 & L2).
+    assert (Hnli : LI (hcur (hnext C p (smem hloc (hprog C) s (HNext old))))).
+    { unfold hnext; rewrite Epc. destruct (_ =? onext); cbn [hcur]; [exact I|]. unfold repl_at. destruct (is_removed _); cbn; [exact I|]. split; [exact (Hso old)|exact L2]. }
+    apply Inv_upd; try exact HI.
+    + rewrite size_post. destruct (_ =? onext); [unfold updm; rewrite (upd_other hloc hloc_eqb hloc_eqb_spec) by discriminate|]; exact Hsz.
+    + apply sorted_post; [|exact Hnli]. apply sorted_cas; [exact Hso|]. intros _. unfold le_next. rewrite ptr_mkp by (unfold REMOVED, OWNER; lia). intros _. lia.
+    + exact Hnli.
+    + apply Htodo; discriminate.
+    + apply Hfn.
+  - (* RG_Start *) apply Inv_nowrite; [exact HI| |apply Htodo; discriminate|apply Hfn]. unfold hnext; rewrite Epc; cbn [hcur]. apply LI_rgc_at.
+  - (* RG_Iter *)
+    apply Inv_nowrite; [exact HI| |apply Htodo; discriminate|apply Hfn]. unfold hnext; rewrite Epc. cbn in Hli.
+    destruct (is_removed _); cbn [hcur]; [cbn; split; [exact Hli|exact (Hso (ptr iter))]|apply LI_rgc_at].
+  - (* RG_Cas *)
+    cbn in Hli. destruct Hli as (L2 & L3).
+    assert (Hpost : hpost C p (smem hloc (hprog C) s (HNext prev)) = []) by (unfold hpost, hnext; rewrite Epc; reflexivity).
+    rewrite Hpost. cbn [drain]. apply Inv_upd; try exact HI.
+    + destruct (_ =? iter); [unfold updm; rewrite (upd_other hloc hloc_eqb hloc_eqb_spec) by discriminate|]; exact Hsz.
+    + apply sorted_cas; [exact Hso|]. intros E. unfold le_next.
+      assert (Hpi : rh C prev <= rh C (ptr iter)) by (pose proof (Hso prev) as Hp; unfold M in Hp; rewrite E in Hp; exact (Hp L2)).
+      destruct (is_bucket iter); rewrite ?ptr_clr_b, ?ptr_clr; intros Hn; specialize (L3 Hn); lia.
+    + unfold hnext; rewrite Epc; cbn. exact I.
+    + apply Htodo; discriminate.
+    + apply Hfn.
+  - (* R_Assert *) apply Inv_nowrite; [exact HI| |apply Htodo; discriminate|apply Hfn]. unfold hnext; rewrite Epc; cbn. exact I.
+  - (* R_Ret *) apply Inv_nowrite; [exact HI| |apply Htodo; discriminate|apply Hfn]. unfold hnext; rewrite Epc; cbn. exact I.
 Qed.
 
 Lemma Inv_exec (s : st) c : Inv s -> Inv (fst (exec hloc hloc_eqb (hprog C) c s)).
